@@ -858,6 +858,22 @@ end KrroodVerif.Dao.Translated
 """
 
 
+# the hand table `Dao.protocol` (Model/DaoProtocol.lean), only used to word the message about a changed translation
+HAND = {
+    "toD": {"stateInit": "orIdiom", "stateFalsy": False, "memoFirst": True, "memoKey": "identity", "register": "before",
+            "keepAlive": True, "singleGuard": "isNone", "collDedup": "none", "scalarGuard": "none", "fixups": "notNeeded",
+            "fixDedup": "none", "deferredFix": False},
+    "fromD": {"stateInit": "orIdiom", "stateFalsy": False, "memoFirst": True, "memoKey": "identity", "register": "before",
+              "keepAlive": True, "singleGuard": "isNone", "collDedup": "none", "scalarGuard": "none", "fixups": "afterInit",
+              "fixDedup": "none", "deferredFix": True},
+}
+
+
+def diff_to_hand(table: dict) -> str:
+    return ", ".join(f"{k}.{f}: {HAND[k][f]} -> {table[k][f]}" for k in ("toD", "fromD") for f in _FIELDS
+                     if table[k][f] != HAND[k][f]) or "none"
+
+
 def generate(repo: Path) -> str:
     return render(describe((Path(repo) / SOURCE).read_text()))
 
